@@ -222,6 +222,20 @@ func instrument(path string) ([]byte, bool, error) {
 		}
 	}
 	usesSched := false
+	// os.MkdirAll / os.RemoveAll are loops of system calls inside the standard library; they are
+	// replaced by equivalent loops with a scheduling point before every system call, so that what
+	// another goroutine does between two of those calls is explored too
+	ast.Inspect(f, func(n ast.Node) bool {
+		if call, ok := n.(*ast.CallExpr); ok {
+			if sel, ok := call.Fun.(*ast.SelectorExpr); ok {
+				if id, ok := sel.X.(*ast.Ident); ok && id.Name == "os" && (sel.Sel.Name == "MkdirAll" || sel.Sel.Name == "RemoveAll") {
+					sel.X = ast.NewIdent("vsched")
+					usesSched = true
+				}
+			}
+		}
+		return true
+	})
 	ast.Inspect(f, func(n ast.Node) bool {
 		switch v := n.(type) {
 		case *ast.BlockStmt:
